@@ -746,11 +746,53 @@ fn gen_c07(rng: &mut Rng, ctx: &mut Ctx, rep: &mut Report, emit: Emit) {
         }
     }
     if stride == 1 { rep.exhaustive_parts.push(format!("validation rule space: {} block lists x {} flag words x ts zero/non-zero x anonymous/named = {} bundles", lists.len(), n_flagwords, count)); }
+    // long block lists (whatever bookkeeping the duplicate / at-most-once checks use must not depend on the list
+    // being short): 12..40 blocks of distinct opaque types and numbers, then one rule broken at EVERY position —
+    // the number of block j repeated by a later block, an at-most-once type twice with j blocks in between,
+    // creation time zero with the bundle age block as the j-th block
+    for n in [12usize, 16, 17, 18, 19, 24, 33, 40] {
+        let mk = |rng: &mut Rng, n: usize| -> Bundle {
+            let mut b = Bundle::default();
+            b.primary.destination = EndpointID::with_dtn("d/in").unwrap();
+            b.primary.source = EndpointID::with_ipn(1, 2).unwrap();
+            b.primary.creation_timestamp = CreationTimestamp::with_time_and_seq(1000, 0);
+            b.canonicals = (0..n).map(|i| new_canonical_block(192 + i as u64, 2 + i as u64, 0, CanonicalData::Unknown(vec![rng.next() as u8]))).collect();
+            b.canonicals.push(new_canonical_block(1, 1, 0, CanonicalData::Data(vec![1])));
+            b
+        };
+        emit(ctx, rep, format!("validate {}", show_bundle(&mk(rng, n))));
+        for j in 0..n {
+            if !ctx.tier_thorough && n > 19 && j % 3 != 0 { continue; }
+            // block number of block j repeated by the last extension block / by the payload block's neighbour
+            let mut b = mk(rng, n); let num = b.canonicals[j].block_number; if j != n - 1 { b.canonicals[n - 1].block_number = num; } else { b.canonicals[0].block_number = num; }
+            emit(ctx, rep, format!("validate {}", show_bundle(&b)));
+            // an at-most-once type at position j and again at the end
+            for (t, d) in [(7u64, CanonicalData::BundleAge(5)), (10, CanonicalData::HopCount(3, 1)), (6, CanonicalData::PreviousNode(EndpointID::with_dtn("p").unwrap()))] {
+                let mut b = mk(rng, n); b.canonicals[j] = new_canonical_block(t, 2 + j as u64, 0, d.clone());
+                emit(ctx, rep, format!("validate {}", show_bundle(&b)));
+                b.canonicals[if j == n - 1 { 0 } else { n - 1 }] = new_canonical_block(t, if j == n - 1 { 2 } else { 1 + n as u64 }, 0, d.clone());
+                emit(ctx, rep, format!("validate {}", show_bundle(&b)));
+            }
+            // creation time zero: the bundle age block is the j-th block (valid), or absent (invalid)
+            let mut b = mk(rng, n); b.primary.creation_timestamp = CreationTimestamp::with_time_and_seq(0, 3);
+            emit(ctx, rep, format!("validate {}", show_bundle(&b)));
+            b.canonicals[j] = new_canonical_block(7, 2 + j as u64, 0, CanonicalData::BundleAge(9));
+            emit(ctx, rep, format!("validate {}", show_bundle(&b)));
+        }
+    }
     // random: valid bundles with one injected rule violation, and arbitrary decodable bundles
     for i in 0..ctx.n(10_000, 1_000_000) {
         let mut b = if i % 3 == 0 { gen_bundle(rng, &Opts { wf: true, max_blocks: 6 }) } else { gen_valid_bundle(rng) };
         if i % 3 == 1 {
-            match rng.below(19) {
+            match rng.below(21) {
+                // dtn endpoint IDs as they can arrive from the wire: no "//", multi-byte characters around every
+                // byte offset the validation may slice at (a verdict, not a panic, is required for each)
+                19 | 20 => {
+                    const RAW: [&str; 22] = ["nöde1//svc", "/ö/nod/svc", "€//n1/svc", "😀/n1/svc", "aö", "ö", "/ö", "//ö", "//ö/", "ab€", "é/", "a€/", "/€", "//€/x", "/é/", "éé//", "a/é", "\u{7ff}/", "\u{800}//", "x\u{10000}", "//\u{10000}/", "ö//n/"];
+                    let e = EndpointID::Dtn(1, dtn_address(rng.pick(&RAW).as_bytes()).unwrap());
+                    match rng.below(4) { 0 => b.primary.destination = e, 1 => b.primary.source = e, 2 => b.primary.report_to = e,
+                        _ => b.canonicals.insert(0, new_canonical_block(6, 64, 0, CanonicalData::PreviousNode(e))) }
+                }
                 // typed data in a block of another type; opaque payload data outside the payload block; payload
                 // block carrying typed data; previous node naming an invalid EID
                 14 => { let (t, d) = match rng.below(4) { 0 => (7u64, CanonicalData::HopCount(3, 1)), 1 => (10, CanonicalData::BundleAge(5)), 2 => (6, CanonicalData::BundleAge(5)), _ => (*rng.pick(&[7u64, 10, 192]), CanonicalData::PreviousNode(gen_eid_wf(rng))) }; b.canonicals.insert(0, new_canonical_block(t, 60, 0, d)); }
